@@ -15,13 +15,13 @@ except ImportError:          # executed from tools/props
 
 PROP = "C20"
 LEVEL = "proof"
-GEN_UNITS = ["GenUtils3"]      # Props/C20Gen.v states the size / subscript / value checks of from_aggregator (and sptendiag) over the GENERATED tt_sizecheck / tt_subscheck / tt_valscheck
-COQ_TARGETS = ["Props/C20.vo", "Props/C20Gen.vo", "Model/C20Harness.vo", "Model/C20Pack.vo", "Model/Harness.vo"]
-THEOREM_FILES = ["Props/C20.v", "Props/C20Gen.v"]
+GEN_UNITS = ["GenUtils3", "GenUtils3b"]      # (GenUtils3b: Props/C20w5.v - tendiag / sptendiag line by line over the GENERATED parse_one_d / parse_shape) Props/C20Gen.v states the size / subscript / value checks of from_aggregator (and sptendiag) over the GENERATED tt_sizecheck / tt_subscheck / tt_valscheck
+COQ_TARGETS = ["Props/C20.vo", "Props/C20Gen.vo", "Props/C20w5.vo", "Model/C20Diag.vo", "Model/C20Lines.vo", "Model/C20Harness.vo", "Model/C20Pack.vo", "Model/Harness.vo"]
+THEOREM_FILES = ["Props/C20.v", "Props/C20Gen.v", "Props/C20w5.v"]
 # PrimInt63 FIRST (only for the [...]%uint63 literals of C20Pack.zs/zss/zsss): its names are shadowed again by the later imports
 COQ_IMPORTS = ("From Coq Require Import PrimInt63.\n"
                "From Coq Require Import List ZArith Bool QArith Qcanon.\n"
-               "From PV Require Import Base.Index Np.Array Model.Sparse Model.Repr Model.Harness Model.C20Gen Model.C20Harness Model.C20Pack.\n")
+               "From PV Require Import Base.Index Np.Array Model.Sparse Model.Repr Model.Harness Model.C20Gen Model.C20Harness Model.C20Pack Model.C20Diag Model.C20Lines.\n")
 RULE = ("all shapes with <= 8 cells + seeded random shapes (orders 1-5, singleton modes); function outputs as C-, F-ordered, "
         "1-d and differently shaped arrays with distinct values; diagonal element vectors of length 1-4 against no shape / "
         "shorter / longer / mixed shapes (1-4 modes); aggregator inputs with arbitrary multiplicities, unsorted, zero-summing "
@@ -41,7 +41,10 @@ RULE = ("all shapes with <= 8 cells + seeded random shapes (orders 1-5, singleto
         "planted that each of the 13 reducer names (mean included) sends to zero; ktensor.from_function with zero-size modes; teneye "
         "(6,1), (8,1), (6,2), numpy-integer arguments; sequences of 1-4 random generator calls under ONE global seed (captured uniform "
         "stream = stream of RandomState(seed), global state afterwards = that generator's state, sequence reproducible, every call "
-        "checked by its model); non-trivial = more than one cell and not constant")
+        "checked by its model); wave 5 (op diag_lines): tendiag / sptendiag with FLEXIBLE arguments - elements as int, list, tuple, "
+        "1-d / 1 x n / n x 1 / 0-d / 2 x 2 arrays (int and float), shapes as none, tuple, list, int, 1-d and n x 1 integer arrays, float "
+        "arrays, 2 x 2 arrays, nested lists, the empty tuple - against the line-by-line models over the generated parse_one_d / "
+        "parse_shape; non-trivial = more than one cell and not constant")
 CORRESPONDENCE_ONLY = [
     "tenrand / sptenrand: that numpy's uniform draws lie in [0,1) is checked on the drawn samples only (a property of numpy's "
     "generator); that the tensor's values ARE the draws is proved (C20_from_function_values, C20_sprand_values)",
@@ -53,6 +56,9 @@ CORRESPONDENCE_ONLY = [
     "calls against an independent numpy.random.RandomState(seed); numpy's generator itself is not modelled",
 ]
 ASSUMPTIONS = [
+    "literals of the generated cases: the captured 53-bit draw numerators are written as primitive 63-bit integers and decoded with the "
+    "standard library's Uint63.to_Z (Model/C20Pack.v) - Coq's VM evaluation of primitive integers is trusted like vm_compute itself; "
+    "no theorem depends on it",
     "random draws are inputs of the model: the theorems speak about the post-processing of an arbitrary matrix of draws; "
     "the distribution of numpy.random is not modelled",
     "floor(u*d) is computed on exact rationals (u = m/2^53); numpy rounds u*d to a double first (differs with probability ~d*2^-53)",
@@ -70,7 +76,10 @@ EXPLANATION = ("Deterministic generators: theorems for all shapes/values over an
                "translator-generated tt_sizecheck / tt_subscheck / tt_valscheck (Props/C20Gen.v). "
                "Corner requests of tendiag / sptendiag / from_aggregator (no element, empty shape, no pair, sizes below one) are "
                "checked against request models that state what the property demands (C20_tendiag_request, C20_sptendiag_request, "
-               "C20_aggregator_request).")
+               "C20_aggregator_request). Wave 5: tendiag / sptendiag are transliterated line by line over the generated parse_one_d / "
+               "parse_shape / tt_*check (Model/C20Diag.v); Props/C20w5.v proves them equal to those request models and proves that the "
+               "dense and the sparse diagonal generator denote the same array. The 53-bit draw numerators of the cases are uint63 "
+               "literals decoded by Uint63.to_Z (Model/C20Pack.v; memory of a case shard 2.4 GB -> 0.6 GB).")
 
 REDUCERS = {
     "sum": "RSum", "max": "RMax", "min": "RMin", "prod": "RProd", "first": "RFirst", "last": "RLast", "len": "RLen",
@@ -333,8 +342,104 @@ def gen_cases(rng, tier):
         cases.append(Case(op, {"e": [[1, 2, 3]], "shape": [3, 3]}, True))      # one non-trivial dimension: a vector
     for kw in ("none", "both"):
         cases.append(Case("sptenrand_kw", {"shape": [2, 2], "kw": kw}, True))
+    cases += _gen_diag_lines(rng, big)
+    cases += _gen_gen_lines(rng, big)
     cases += W3.gen(rng, tier)
     return cases
+
+
+# wave 5: tendiag / sptendiag with FLEXIBLE element and shape arguments (int, list, tuple, ndarray with singleton axes, float /
+# 2-d / nested ones that must be rejected) against the line-by-line transliterations Model/C20Diag.py_tendiag / py_sptendiag,
+# which read the arguments through the translator-generated parse_one_d / parse_shape
+EL_FORMS = ("list", "tuple", "int", "arr", "arr_row", "arr_col_int", "arr_0d", "arr_2d")
+SP_FORMS = ("none", "tuple", "list", "int", "arr", "arr_col", "arr_float", "arr_2d", "nested", "empty")
+
+
+def _gen_diag_lines(rng, big):
+    out = []
+    for ef in EL_FORMS:
+        for sf in SP_FORMS:
+            for rep in range(3 if big else 1):
+                N = 1 if ef in ("int", "arr_0d") else (4 if ef == "arr_2d" else rng.choice([1, 2, 3]))
+                e = [rng.choice([-3, -1, 2, 4, 7, 0]) for _ in range(N)]
+                if N > 1:
+                    e[0] = e[0] or 5
+                M = 1 if sf == "int" else (4 if sf == "arr_2d" else rng.choice([1, 2, 3]))
+                shp = [] if sf in ("none", "empty") else [rng.choice([1, 2, 3, 4]) for _ in range(M)]
+                for kind in ("tendiag", "sptendiag"):
+                    out.append(Case("diag_lines", {"kind": kind, "e": e, "ef": ef, "shape": shp, "sf": sf}, N > 1))
+    return out
+
+
+GEN_SP_FORMS = ("tuple", "list", "int", "arr", "arr_col", "arr_float", "arr_2d", "nested", "empty", "neg", "zero")
+
+
+def _gen_gen_lines(rng, big):
+    """tenones / tenzeros with a flexible shape argument against Model/C20Lines.py_dense_generator (generated parse_shape)"""
+    out = []
+    for sf in GEN_SP_FORMS:
+        for rep in range(4 if big else 2):
+            M = 1 if sf == "int" else (4 if sf == "arr_2d" else rng.choice([1, 2, 3]))
+            shp = [] if sf == "empty" else [rng.choice([1, 2, 3, 4]) for _ in range(M)]
+            form = sf
+            if sf in ("neg", "zero"):
+                shp[rng.randrange(M)] = -rng.choice([1, 2]) if sf == "neg" else 0
+                form = rng.choice(["tuple", "list", "arr"])
+            for kind in ("tenones", "tenzeros"):
+                out.append(Case("gen_lines", {"kind": kind, "shape": shp, "sf": form}, math.prod(shp) > 1 if shp else False))
+    return out
+
+
+def _diag_arg(np, form, l):
+    """(python argument, Gallina diag_arg) of one flexible argument"""
+    if form in ("list", "empty"):
+        return list(l), f"(AList {gzlist(l)})"
+    if form == "tuple":
+        return tuple(l), f"(ATuple {gzlist(l)})"
+    if form == "int":
+        return int(l[0]), f"(AInt {gz(l[0])})"
+    if form == "nested":
+        return list(l[:-1]) + [[l[-1]]], f"(ANested {gzlist(l[:-1])} {gzlist(l[-1:])})"
+    fl = form in ("arr_row", "arr_0d", "arr_float")
+    shp = {"arr": [len(l)], "arr_float": [len(l)], "arr_row": [1, len(l)], "arr_col": [len(l), 1], "arr_col_int": [len(l), 1],
+           "arr_0d": [], "arr_2d": [2, 2]}[form]
+    a = np.array(l, dtype=float if fl else np.int64).reshape(tuple(shp))
+    return a, f"(AArr {gzlist(shp)} {'true' if fl else 'false'} {gzlist(l)})"
+
+
+def _run_diag_lines(np, ttb, a):
+    el, _ = _diag_arg(np, a["ef"], a["e"])
+    sp = None if a["sf"] == "none" else _diag_arg(np, a["sf"], a["shape"])[0]
+    if a["sf"] == "empty":
+        sp = ()
+    if a["kind"] == "tendiag":
+        return {"ok": tgen.obs_dense(np, ttb.tendiag(el, sp))}
+    return {"ok": _sp_obs(np, ttb.sptendiag(el, sp))}
+
+
+def _check_diag_lines(a, o):
+    import numpy as np
+    el = _diag_arg(np, a["ef"], a["e"])[1]
+    sp = "None" if a["sf"] == "none" else ("(Some (ATuple (@nil Z)))" if a["sf"] == "empty" else f"(Some {_diag_arg(np, a['sf'], a['shape'])[1]})")
+    fn = "tendiag_lines_ok" if a["kind"] == "tendiag" else "sptendiag_lines_ok"
+    if "exc" in o:
+        return f"{fn} {el} {sp} None" if o["exc"] in REJECT else "false"
+    if a["kind"] == "tendiag":
+        if not tgen.all_int(o["ok"]["data"]):
+            return "false"
+        return f"{fn} {el} {sp} (Some {tgen.gdense(o['ok']['shape'], o['ok']['data'])})"
+    if not _sp_ok(o["ok"]):
+        return "false"
+    return f"{fn} {el} {sp} (Some {gsp(o['ok'])})"
+
+
+def _oracle_diag_lines(a, o):
+    bad = a["ef"] == "arr_2d" or a["sf"] in ("arr_float", "arr_2d", "nested", "empty")
+    if "exc" in o:
+        return None if bad else f"admissible request raised {o['exc']}: {o.get('msg')}"
+    if bad:
+        return "ill-formed element / shape argument accepted"
+    return oracle(Case(a["kind"], {"e": a["e"], "shape": None if a["sf"] == "none" else a["shape"]}, True), o)
 
 
 # ---------------------------------------------------------------- running pyttb
@@ -552,6 +657,11 @@ def run_impl(c):
             kw = {"order": a["order"]} if a.get("order") else {}
             T = ttb.teneye(np.int64(a["m"]), np.int64(a["n"]), **kw) if a.get("npint") else ttb.teneye(a["m"], a["n"], **kw)
             return {"shape": [int(d) for d in T.shape], "data": [Fraction(float(x)) for x in np.ravel(T.data, order="F")]}
+        if c.op == "diag_lines":
+            return _run_diag_lines(np, ttb, a)
+        if c.op == "gen_lines":
+            sp = () if a["sf"] == "empty" else _diag_arg(np, a["sf"], a["shape"])[0]
+            return {"ok": tgen.obs_dense(np, (ttb.tenones if a["kind"] == "tenones" else ttb.tenzeros)(sp))}
         if c.op in W3.OPS:
             return W3.run(c, np, ttb)
     except Exception as ex:
@@ -751,6 +861,17 @@ def coq_check(c, o):
         # the quick tier - against the transliteration of pyttb's count (teneye_count); the identity action on the observed tensor
         chk = f"teneye_formula_agrees {a['m']} {a['n']} {A} && teneye_identity_ok {A} {a['m']} {a['n']} {x}"
         return chk if a.get("formula_only") else f"teneye_agrees {a['m']} {a['n']} {A} && " + chk
+    if c.op == "diag_lines":
+        return _check_diag_lines(a, o)
+    if c.op == "gen_lines":
+        import numpy as np
+        sp = "(ATuple (@nil Z))" if a["sf"] == "empty" else _diag_arg(np, a["sf"], a["shape"])[1]
+        fill = 1 if a["kind"] == "tenones" else 0
+        if "exc" in o:
+            return f"dense_lines_ok {fill}%Z {sp} None" if o["exc"] in REJECT_Z else "false"
+        if not tgen.all_int(o["ok"]["data"]):
+            return "false"
+        return f"dense_lines_ok {fill}%Z {sp} (Some {tgen.gdense(o['ok']['shape'], o['ok']['data'])})"
     if c.op in W3.OPS:
         return W3.check(c, o)
     raise ValueError(c.op)
@@ -965,6 +1086,16 @@ def oracle(c, o):
             want = nrm2 ** (m // 2 - 1) * x[i1]
             if abs(acc - want) > Fraction(1, 10 ** 6) * max(1, abs(want)):
                 return f"ttsv(I,x)[{i1}] = {float(acc)} != {float(want)}"
+    elif c.op == "diag_lines":
+        return _oracle_diag_lines(a, o)
+    elif c.op == "gen_lines":
+        bad = a["sf"] in ("arr_float", "arr_2d", "nested", "empty") or any(d < 0 for d in a["shape"])
+        if "exc" in o:
+            return None if bad else f"admissible shape argument raised {o['exc']}: {o.get('msg')}"
+        if bad:
+            return "ill-formed shape argument accepted"
+        if o["ok"]["shape"] != a["shape"] or o["ok"]["data"] != [1 if a["kind"] == "tenones" else 0] * math.prod(a["shape"]):
+            return "wrong shape or entries"
     elif c.op in W3.OPS:
         return W3.oracle(c, o)
     return None
